@@ -1,6 +1,8 @@
 import Rangers.Basic.Hex
 import Rangers.Basic.Line
 import Rangers.Model.Evm10Interp
+import Rangers.Model.Evm10Call
+import Rangers.Model.Evm10Cache
 import Rangers.Model.Evm10Keccak
 import Rangers.Generated.Evm10JumpTable
 /-
@@ -8,6 +10,8 @@ C10 driver.  Ops:
   run <cfg 0..7> <gas> <code hex> <input hex>   → ok <gasLeft> <ret> | revert <gasLeft> <ret> | err <kind> | unmodelled
   bitmap <code hex>                              → hex of codeBitmap(code)
   valid <code hex> <dest word hex>               → true|false   (validJumpdest)
+  idcall <mem hex> <inOff> <inSize> <retOff> <retSize> → ok <memory after> <return data>   (STATICCALL to precompile 0x04)
+  memsize <cfg> <opcode> <stack words, top first> → <size> <overflow> | undefined   (operation.memorySize)
 -/
 namespace Rangers.Drive.C10
 open Rangers Rangers.Model.Evm10
@@ -21,6 +25,40 @@ def showOutcome : Outcome → String
   | .unmodelled _ => "unmodelled"
   | .outOfFuel => "out-of-fuel"
 
+/-- one `jd` session: tokens `c<id>:<code>:<hash label, - = zero hash>` create a frame sharing the
+map, `v<id>:<dest>` asks validJumpdest; answer per query `t|f` followed by the size of the shared map -/
+def jdSession (toks : List String) : Option String :=
+  let rec go (toks : List String) (cs : List (Nat × JContract)) (jd : JMap) (acc : List String) :
+      Option String :=
+    match toks with
+    | [] => some (if acc.isEmpty then "-" else " ".intercalate acc.reverse)
+    | t :: rest =>
+      match t.splitOn ":" with
+      | [a, b, c] =>
+        if a.startsWith "c" then
+          match (a.drop 1).toNat?, ofHex? b, ofHex? c with
+          | some id, some code, some h =>
+            let jc : JContract := { code := code, codeHash := if h.isEmpty then none else some h, analysis := none }
+            go rest ((id, jc) :: cs.filter (fun x => x.1 != id)) jd acc
+          | _, _, _ => none
+        else none
+      | [a, b] =>
+        if a.startsWith "v" then
+          match (a.drop 1).toNat?, ofHex? b with
+          | some id, some d =>
+            match cs.find? (fun x => x.1 == id) with
+            | some (_, jc) =>
+              if d.length > 32 then none
+              else
+                let r := validJumpdestJ jc jd (U256.setBytes d)
+                go rest ((id, r.2.1) :: cs.filter (fun x => x.1 != id)) r.2.2
+                  ((if r.1 then s!"t{r.2.2.length}" else s!"f{r.2.2.length}") :: acc)
+            | none => none
+          | _, _ => none
+        else none
+      | _ => none
+  go toks [] [] []
+
 def step (_ : Unit) (line : String) : Unit × String :=
   match splitWords line with
   | ["run", cfg, gas, code, input] =>
@@ -32,6 +70,38 @@ def step (_ : Unit) (line : String) : Unit × String :=
         let p := Rangers.Generated.Evm10.gasParams (cfg / 4 % 2 == 1)
         ((), showOutcome (call Keccak.keccak256 t p (gas + 2) code input gas))
     | _, _, _, _ => ((), "bad-op")
+  | "memsize" :: cfg :: op :: ws =>
+    match parseNat? cfg, parseNat? op, ws.mapM ofHex? with
+    | some cfg, some op, some ws =>
+      if cfg ≥ 8 ∨ op ≥ 256 ∨ ws.any (fun w => w.length > 32) then ((), "bad-op")
+      else
+        match (Rangers.Generated.Evm10.table cfg).get op with
+        | none => ((), "undefined")
+        | some info =>
+          match memorySizeOf info.memSize (ws.map U256.setBytes) with
+          | .noFn => ((), "undefined")
+          | .size sz ov => ((), s!"{sz} {ov}")
+          | .panic => ((), "PANIC")
+          | .unmodelled _ => ((), "unmodelled")
+    | _, _, _ => ((), "bad-op")
+  | ["idcall", mem, io, isz, ro, rs] =>
+    match ofHex? mem, parseNat? io, parseNat? isz, parseNat? ro, parseNat? rs with
+    | some mem, some io, some isz, some ro, some rs =>
+      if io ≥ 2 ^ 32 ∨ isz ≥ 2 ^ 32 ∨ ro ≥ 2 ^ 32 ∨ rs ≥ 2 ^ 32 then ((), "bad-op")
+      else
+        -- CALLDATACOPY(0, 0, len) first: memory = the bytes, zero-extended to whole words
+        let m0 := if mem.length = 0 then [] else Mem.resize mem (toWordSize mem.length * 32)
+        match staticCallMemory m0 (U256.ofNat io) (U256.ofNat isz) (U256.ofNat ro) (U256.ofNat rs) with
+        | none => ((), "unmodelled")
+        | some m =>
+          match identityCall m io isz ro rs with
+          | some (m', rd) => ((), s!"ok {toHex m'} {toHex rd}")
+          | none => ((), "PANIC")
+    | _, _, _, _, _ => ((), "bad-op")
+  | "jd" :: toks =>
+    match jdSession toks with
+    | some r => ((), r)
+    | none => ((), "bad-op")
   | ["bitmap", code] =>
     match ofHex? code with
     | some code => ((), toHex (Bitvec.codeBitmap code))
